@@ -58,10 +58,12 @@ theorem dropUnused_used (p : String) (ns : List String) (c : Cat) :
     snapshot itself claims their (node, id) — together with their service checks; and a node disappears only
     if it carried an instance of `sn` before and carries nothing afterwards. -/
 theorem handleUpdate_other {c : Cat} {p sn : String} {is : List Inst}
-    (wf : WF c) (ok : SnapOK sn is) (fr : Fresh c p is) (nt : NoTheft c p sn is)
+    (wf : WF c) (ok : SnapOK sn is) (fr : Fresh c p is)
     (he : (handleUpdate c p sn is).err = none) (hp : (handleUpdate c p sn is).panic = false) :
-    (∀ s ∈ c.svcs, s.peer = p → s.name ≠ sn → s ∈ (handleUpdate c p sn is).cat.svcs) ∧
-    (∀ k ∈ c.chks, k.peer = p → (∃ s ∈ c.svcs, s.peer = p ∧ s.name ≠ sn ∧ s.node = k.node ∧ s.sid = k.sid) →
+    (∀ s ∈ c.svcs, s.peer = p → s.name ≠ sn → (∀ i ∈ is, ¬(s.node = i.node.name ∧ s.sid = i.svc.sid)) →
+        s ∈ (handleUpdate c p sn is).cat.svcs) ∧
+    (∀ k ∈ c.chks, k.peer = p → (∃ s ∈ c.svcs, s.peer = p ∧ s.name ≠ sn ∧ s.node = k.node ∧ s.sid = k.sid ∧
+          ∀ i ∈ is, ¬(s.node = i.node.name ∧ s.sid = i.svc.sid)) →
         (∀ i ∈ is, ∀ d ∈ i.chks, ¬(k.node = d.node ∧ k.cid = d.cid)) → k ∈ (handleUpdate c p sn is).cat.chks) ∧
     (∀ x ∈ c.nodes, x.peer = p → (∀ i ∈ is, x.name ≠ i.node.name) →
         (x ∈ (handleUpdate c p sn is).cat.nodes ↔
@@ -70,7 +72,7 @@ theorem handleUpdate_other {c : Cat} {p sn : String} {is : List Inst}
   obtain ⟨st, snap, c1, l1, hst, hsnap, hr, hcat⟩ := handleUpdate_ok he hp
   obtain ⟨snap', hsnap', swf, sis⟩ := mkSnap_is ok
   rw [hsnap] at hsnap'; cases hsnap'
-  have ph := phase1 wf ok sis fr nt hst hr
+  have ph := phase1 wf ok sis fr hst hr
   have hd := runOps_deregs _ c1 (cleanupCmds_dereg p snap st)
   have hk := runOps_deregs_keep _ c1 (cleanupCmds_dereg p snap st)
   have hdu := dropUnused_keep p (cleanup p snap st).unused (runOps c1 (cleanupCmds p (cleanup p snap st))).1
@@ -111,14 +113,15 @@ theorem handleUpdate_other {c : Cat} {p sn : String} {is : List Inst}
       simp only [Op.deregChk.injEq] at hm
       obtain ⟨rfl, rfl, rfl⟩ := hm
       exact ⟨rfl, x, hx, kk, hkk, by rw [h1], by rw [h1]⟩
-  have svcKept : ∀ s ∈ c.svcs, s.peer = p → s.name ≠ sn → s ∈ (handleUpdate c p sn is).cat.svcs := by
-    intro s hs hsp hsn
+  have svcKept : ∀ s ∈ c.svcs, s.peer = p → s.name ≠ sn → (∀ i ∈ is, ¬(s.node = i.node.name ∧ s.sid = i.svc.sid)) →
+      s ∈ (handleUpdate c p sn is).cat.svcs := by
+    intro s hs hsp hsn hun
     rw [hcat]
     apply hdu.2.1
     apply hk.2.1
     · apply ph.svcKeep s hs
       intro i hi hkey
-      exact hsn (nt s hs hsp i hi hkey.2.1 hkey.2.2)
+      exact hun i hi hkey.2
     · intro q n i hm hkey
       obtain ⟨rfl, x, hx, rfl, rfl⟩ := cmdSvc q n i hm
       obtain ⟨xs, xp, xn, _⟩ := (csn_ok hst).1 x hx
@@ -126,8 +129,8 @@ theorem handleUpdate_other {c : Cat} {p sn : String} {is : List Inst}
       exact hsn (by rw [this]; exact xn)
     · exact fun q n hm => absurd hm (cmdNode q n)
   refine ⟨svcKept, ?_, ?_⟩
-  · intro k hkc hkp ⟨s, hs, hsp, hsn, hsnode, hssid⟩ hno
-    have hsF := svcKept s hs hsp hsn
+  · intro k hkc hkp ⟨s, hs, hsp, hsn, hsnode, hssid, hun⟩ hno
+    have hsF := svcKept s hs hsp hsn hun
     rw [hcat] at hsF ⊢
     apply hdu2.2.1 _ _ ⟨s, (sub_dropUnused p _ _).svcs s hsF, hsp, hsnode⟩
     apply hk.2.2
